@@ -566,7 +566,10 @@ fn execute(scn: &BScn, property: &str) -> RunOutcome {
                 // (a) time is conserved
                 let grown = pos_base + delta;
                 if after.state != AnimationState::Ended {
-                    if after.pos != grown {
+                    // (on a re-target frame "from its beginning" allows the position to be 0 or
+                    // one frame into the new timeline, whichever side of the animation system
+                    // the re-target took effect)
+                    if after.pos != grown && !(retargeted && after.pos == Duration::ZERO) {
                         fail!("C18", "position-not-conserved", "frame {fi}: state {:?}, position {:?} + delta {delta:?} should be {grown:?}, is {:?}", after.state, pos_base, after.pos);
                     }
                 } else if state_base == AnimationState::Ended {
@@ -580,7 +583,7 @@ fn execute(scn: &BScn, property: &str) -> RunOutcome {
                 if rank(after.state) < rank(state_base) && !swapped_while_ended {
                     fail!("C18", "state-went-backwards", "frame {fi}: {state_base:?} -> {:?} without reset or re-target", after.state);
                 }
-                if after.state == AnimationState::None {
+                if after.state == AnimationState::None && !retargeted {
                     fail!("C18", "enabled-animator-stays-none", "frame {fi}: enabled animator with a timeline is still None after the frame");
                 }
                 // (c) Waiting only while the position is before the delay
@@ -838,7 +841,7 @@ fn execute(scn: &BScn, property: &str) -> RunOutcome {
                             }
                             AnimationState::Ended => {}
                         }
-                        if retargeted && after.state != AnimationState::Ended && after.pos != delta {
+                        if retargeted && after.state != AnimationState::Ended && after.pos != delta && after.pos != Duration::ZERO {
                             fail!("C19", "not-from-the-beginning", "frame {fi}: re-targeted to key {:?} but the position is {:?} (frame delta {delta:?})", after.acted, after.pos);
                         }
                     }
